@@ -25,5 +25,10 @@ import json
 m=json.load(open("$out/meta.json"))
 m["confirmed_by_me"]={"worktree":"$wt (removed afterwards)","demo_on_unchanged_src_rc":$rc_clean,"existing_suite_with_change":{"passed":$npass,"failed":$nfail,"cmd":"cargo test --workspace --no-fail-fast --offline"},"demo_with_change_rc":$rc_patched,"ok": ($rc_clean==0 and $nfail==0 and $rc_patched!=0)}
 m["breaks_property"]="$id"
+import os
+if os.path.exists("$dst/meta.json"):
+    old=json.load(open("$dst/meta.json"))
+    for k in ("detected_by","what_i_ran","rebased"):
+        if k in old: m[k]=old[k]
 json.dump(m,open("$dst/meta.json","w"),indent=1)
 PY
